@@ -140,7 +140,11 @@ def is_number(r):
 
 
 def small(q):
-    return abs(q.numerator) < 2 ** 24 and q.denominator < 2 ** 24
+    """Can q be a value the specification expects within the bounds the harness drives
+    (|items| <= 14 in halves, <= 8 items)?  Expected values have denominators dividing
+    n^3 * unit^2 <= 2048 and numerators far below 2^20; anything else is logged as the
+    non-matching token (and cannot overflow TLC's 32-bit cross-multiplications)."""
+    return abs(q.numerator) < 2 ** 20 and q.denominator <= DENMAX
 
 
 def snap(r, tol):
@@ -169,12 +173,12 @@ def token(op, r, num, tol):
         else:
             slack = 4 * EPS * root + (0 if num == 'exact' else float(tol) / (2 * root))
             ok = abs(r - root) <= slack
-        return [q.numerator, q.denominator, 2] if ok else BADTOK
+        return [q.numerator, q.denominator, 2] if ok and small(q) else BADTOK
     if num == 'exact':
         q = Fraction(r)
         return [q.numerator, q.denominator] if small(q) else BADTOK
     q = snap(r, tol)
-    return [q.numerator, q.denominator] if q is not None else BADTOK
+    return [q.numerator, q.denominator] if q is not None and small(q) else BADTOK
 
 
 def tok_str(t):
@@ -384,6 +388,16 @@ def probe_run(mode, reduce, ops, xs):
 FORMAL_STREAM_CAP = 400     # formal.* keeps every item and recomputes: O(n^2) when streaming
 
 
+class Collector:
+    """violations of the auxiliary probe, handed to the Verdict after those judged by TLC"""
+
+    def __init__(self):
+        self.items = []
+
+    def violation(self, witness, clause, detail=None):
+        self.items.append((witness, clause, detail))
+
+
 def numeric_probe(rng, thorough, V):
     """AUXILIARY, not model checking.  Returns the statistics for coverage['numeric_probe']."""
     stats = {'sequences': 0, 'values_compared': 0, 'max_len': 0, 'violations': 0,
@@ -457,7 +471,8 @@ def numeric_probe(rng, thorough, V):
                     V.violation({'op': op, 'mode': mode, 'num': 'float', 'reduce': False,
                                  'wrong_side': 'streaming', 'category': cat, 'n': n,
                                  'ended': ended, 'emitted': len(out),
-                                 'probe': {'seq_index': index, 'seed': C.seed()}},
+                                 'probe': {'seq_index': index, 'seed': C.seed(),
+                                           'tier': 'thorough' if thorough else 'quick'}},
                                 'count' if ended == 'completed' else 'error')
                     continue
                 for k in pos:
@@ -470,7 +485,8 @@ def numeric_probe(rng, thorough, V):
                     V.violation({'op': op, 'mode': mode, 'num': 'float', 'reduce': True,
                                  'wrong_side': 'reduce', 'category': cat, 'n': n,
                                  'ended': ended, 'emitted': len(out),
-                                 'probe': {'seq_index': index, 'seed': C.seed()}},
+                                 'probe': {'seq_index': index, 'seed': C.seed(),
+                                           'tier': 'thorough' if thorough else 'quick'}},
                                 'count' if ended == 'completed' else 'error')
                     continue
                 judge(op, out[0], n, ex, ctx)
@@ -565,7 +581,13 @@ def do_replay(path):
         seqs = probe_sequences(random.Random(p['seed'] * 104729 + 12), tier == 'thorough')
         cat, xs = seqs[p['seq_index']]
         ex = Exact(xs)
-        res = probe_run(w['mode'], bool(w['reduce']), [w['op']], xs)[w['op']][0]
+        res, ended = probe_run(w['mode'], bool(w['reduce']), [w['op']], xs)[w['op']]
+        if ended != 'completed' or len(res) != (1 if w['reduce'] else len(xs)):
+            print('numeric probe (auxiliary): %s %s reduce=%s n=%d: %d values emitted, %s'
+                  % (w['op'], w['mode'], w['reduce'], len(xs), len(res), ended))
+            print('VIOLATION property=%s replay=%s clause=%s'
+                  % (PROP, path, 'count' if ended == 'completed' else 'error'))
+            return 1
         k = w.get('position', len(xs))
         got = res[0] if w['reduce'] else res[k - 1]
         want = ex.value(w['op'], k)
@@ -616,7 +638,7 @@ def main(tier, replay):
 
     # 1. model checking (TLC jobs run in the background while the real code is driven) ------
     L = 8 if thorough else 6            # non-formal operators: all sequences over -3..3
-    LF = 5 if thorough else 4           # formal.* (one state per sequence)
+    LF = 6 if thorough else 4           # formal.* (one state per sequence)
     LC = 5 if thorough else 4           # the code as it is (FormalClears = TRUE)
     jobs = []       # (label, constants, invariants, kwargs)
     for km in KMS:
@@ -624,9 +646,9 @@ def main(tier, replay):
     if thorough:
         jobs.append(('algebra-wide', mc_const(4, 9, (1, 0), False, NONFORMAL), INV_ALL,
                      {'workers': 6}))
-        jobs.append(('formal-repaired', mc_const(2, 6, (1, 0), False, FORMAL), INV_ALL, {}))
+        jobs.append(('formal-repaired', mc_const(2, 7, (-1, 1), False, FORMAL), INV_ALL, {}))
     jobs.append(('formal-repaired', mc_const(3, LF, (1, 0), False, FORMAL), INV_ALL,
-                 {'workers': 6 if thorough else 4}))
+                 {'workers': 8 if thorough else 4}))
     jobs.append(('formal-repaired', mc_const(1, L, (-1, 1), False, FORMAL), INV_ALL, {}))
     jobs.append(('formal-as-coded', mc_const(3, LC, (1, 0), True, FORMAL), INV_FAITHFUL, {}))
     jobs.append(('all-operators', mc_const(2, 3, (1, 0), False, OPS), INV_ALL, {'coverage': True}))
@@ -644,7 +666,7 @@ def main(tier, replay):
         return C.run_tlc('MathAgg', C.cfg(constants=const, invariants=invs), **kw)
 
     # 2. behaviours generated by TLC ----------------------------------------------------
-    nsim = 1500 if thorough else 130
+    nsim = 1500 if thorough else 110
     gens = [('exhaustive', mc_const(3, 3 if thorough else 2, (1, 0), False, [], keephist=True), None),
             ('simulation', mc_const(3, L, (1, 0), False, [], keephist=True), nsim)]
 
@@ -681,11 +703,13 @@ def main(tier, replay):
         km = KMS[n % 2]
         modes = ['plain', 'mux'] + (['store'] if n % 3 == 0 else [])
         for mode in modes:
-            for num in ('exact', 'float'):
-                records.append(record_group(raw, km[0], km[1], 1, mode, num))
+            records.append(record_group(raw, km[0], km[1], 1, mode, 'exact'))
+        # floats: every path in thorough, one path per sequence (rotating) in quick
+        for mode in (modes if thorough else [['plain', 'mux', 'store'][n % 3]]):
+            records.append(record_group(raw, km[0], km[1], 1, mode, 'float'))
     n_replayed = len(uniq)
     n_beh_records = len(records)
-    nrand = 400 if thorough else 60
+    nrand = 400 if thorough else 40
     for n in range(nrand):
         unit = rng.choice([1, 1, 2])
         ln = rng.choice([0, 1, 2, 3, 5, 8])
@@ -698,7 +722,8 @@ def main(tier, replay):
     V.phase('replay and random executions')
 
     # 5. auxiliary numeric probe (python, sampling) ------------------------------------
-    probe = numeric_probe(random.Random(C.seed() * 104729 + 12), thorough, V)
+    probe_found = Collector()
+    probe = numeric_probe(random.Random(C.seed() * 104729 + 12), thorough, probe_found)
     V.phase('numeric probe')
 
     # (1.) collect the model-checking results ---------------------------------------------
@@ -749,7 +774,10 @@ def main(tier, replay):
         for i, vd in zip(out_of_sync, v2):
             left = unsynced(vd)
             explained += len(unsynced(verdicts[i])) - len(left)
-            out_of_sync_final += [(i, op, side) for (op, side) in left]
+            # only subscriptions the specification accepts count as "differs in something
+            # C12 does not constrain"; a rejected one differs from every model anyway
+            out_of_sync_final += [(i, op, side) for (op, side) in left
+                                  if verdicts[i][op][side][1] == '']
     nontriv = set()
     n_rejected = 0
     for rec, vd in zip(records, verdicts):
@@ -766,6 +794,8 @@ def main(tier, replay):
                     raise C.MachineryError('trace spec/harness problem: %s on %r' % (clause, rec))
                 V.violation(witness_of(rec, op, side, vd[op][side]), clause,
                             detail='step %s' % step)
+    for (w, clause, detail) in probe_found.items:
+        V.violation(w, clause, detail=detail)
     V.phase('trace validation')
 
     # empty input of mean: outside the property (length >= 1), only noted
@@ -802,11 +832,20 @@ def main(tier, replay):
         'model_checking_runs': [{'run': label, 'constants': {k: str(v) for k, v in c.items()},
                                  'item_sequences_covered': nseq(c['VMax'], c['MaxLen']),
                                  **r.summary()} for (label, c, r) in mc_stats],
-        'bounds': 'sum/mean/min/max/variance/stddev: every integer sequence over -3..3 of '
-                  'length 0..%d (two key_mappers); formal.*: -3..3 length 0..%d and -1..1 '
-                  'length 0..%d; permuted sequences share a TLC state when all accumulators '
-                  'coincide (they do: Welford forgets the order), so distinct states << sequences'
-                  % (L, LF, L),
+        'bounds': {
+            'sum/mean/min/max/variance/stddev': sorted(
+                'items -%d..%d, length 0..%d, key_mapper %s%d*x+%d'
+                % (c['VMax'], c['VMax'], c['MaxLen'], '-' if c['KNeg'] else '', c['KAbs'], c['KAdd'])
+                for (label, c, r) in mc_stats if label.startswith('algebra')),
+            'formal.variance/formal.stddev (repaired behaviour)': sorted(
+                'items -%d..%d, length 0..%d, key_mapper %s%d*x+%d'
+                % (c['VMax'], c['VMax'], c['MaxLen'], '-' if c['KNeg'] else '', c['KAbs'], c['KAdd'])
+                for (label, c, r) in mc_stats if label == 'formal-repaired'),
+            'note': 'every item sequence within the bounds is a path of the state graph and the '
+                    'invariants are checked after each of its prefixes; sequences that lead to '
+                    'identical accumulators share a TLC state (Welford and the folds forget the '
+                    'order, as the invariants prove), so distinct states << sequences for the '
+                    'non-formal operators; formal.* keeps the list: one state per sequence'},
         'formal_as_coded': {
             'model': 'FormalClears=TRUE',
             'failing_sequences_collected_by_TLC': len(bad_seqs),
